@@ -1,3 +1,4 @@
+import Dmn.Driver.Transcend
 import Dmn.Model.Sexp
 import Dmn.Model.DecWire
 import Dmn.Model.DecString
@@ -209,6 +210,23 @@ def handle (args : List Sexp) : String :=
       | some v => s!"(judge {boolStr v})"
       | none => "(judge na)"
     | _, _, _ => "(error bad-operand)"
+  | [.atom "judgeln", a, r] =>
+    match dec? a, decR? r with
+    | some a, some (.fin d) =>
+      if a.neg then "(judge na)"
+      else match Dmn.Transcend.judgeLn a.coeff a.exp d.neg d.coeff d.exp with
+        | some v => s!"(judge {boolStr v})"
+        | none => "(judge na)"
+    | some _, some _ => "(judge false)"
+    | _, _ => "(error bad-operand)"
+  | [.atom "judgeexp", a, r] =>
+    match dec? a, decR? r with
+    | some a, some (.fin d) =>
+      match Dmn.Transcend.judgeExp a.neg a.coeff a.exp d.neg d.coeff d.exp with
+      | some v => s!"(judge {boolStr v})"
+      | none => "(judge na)"
+    | some _, some _ => "(judge false)"
+    | _, _ => "(error bad-operand)"
   | [.atom "judgev", .atom name, a, r] =>
     match dec? a, decR? r with
     | some a, some r =>
